@@ -147,7 +147,7 @@ func (r *pathRun) noteRuntimePanic(fr *frame, p any) {
 	msg := fmt.Sprint(p)
 	pos := ""
 	if fr != nil && fr.fn != nil {
-		pos = fr.fn.String()
+		pos = targetStack(fr)
 	}
 	r.rtPanics = append(r.rtPanics, pos+": "+msg)
 }
